@@ -156,7 +156,7 @@ def car(x, collection=None, operator='median', **kwargs):
         xout = np.zeros_like(x)
         for c in np.unique(collection):
             sel = collection == c
-            xout[sel, :] = car(x=x[sel, :], collection=None, **kwargs)
+            xout[sel, :] = car(x=x[sel, :], collection=None, operator=operator, **kwargs)
         return xout
 
     if operator == 'median':
